@@ -25,6 +25,7 @@
 -/
 import Cog.Sem.Den
 import Cog.Passes.Common
+import Cog.Passes.AnonymousEnumToExplicitType
 namespace Cog.Sem.Src
 open Cog.IR Cog.Passes
 
@@ -198,6 +199,7 @@ def nrTy : Ty → Bool
   | .array e _ => nrTy e
   | .map i v _ => i.isScalar && nrTy v
   | .disj bs _ _ => nullPair bs
+  | .enum (_ :: _) _ => true        -- second extension: anonymous enums, see below
   | _ => false
 
 def nrObjTy : Ty → Bool
@@ -209,7 +211,57 @@ def nrObjTy : Ty → Bool
 def nrSchema (s : Schema) : Bool :=
   wfObjects s.objects && plainEpt s.entryPointType && s.objects.all fun ko => nrObjTy ko.2.ty
 
-/-- plain, or with `T | null` pairs -/
+/-- plain, or with `T | null` pairs and anonymous enums -/
 def PlainN (S : Schemas) : Bool := S.all nrSchema
+
+/-! ### second extension: anonymous enums (made objects by AnonymousEnumToExplicitType)
+
+`peTy`: plain types and non-empty enums in field / element / map-value position — what is left of
+`nrTy` once DisjunctionWithNullToOptional has run.  AnonymousEnumToExplicitType names the object it
+creates for an enum after the enclosing object and field (`<Object><Field>`, `<Object>Enum` below an
+object that is not a struct) and adds it with `Objects.Set`: the theorem needs the generated names
+to be pairwise different and different from the existing object names (`enumFresh`, decidable). -/
+
+def peTy : Ty → Bool
+  | .scalar .. => true
+  | .ref .. => true
+  | .array e _ => peTy e
+  | .map i v _ => i.isScalar && peTy v
+  | .enum (_ :: _) _ => true
+  | _ => false
+
+def peObjTy : Ty → Bool
+  | .struct fs _ none _ => fs.all fun f => peTy f.ty
+  | .struct _ _ (some _) _ => false
+  | .enum .. => true
+  | t => peTy t
+
+def peSchema (s : Schema) : Bool :=
+  wfObjects s.objects && plainEpt s.entryPointType && s.objects.all fun ko => peObjTy ko.2.ty
+
+def PlainE (S : Schemas) : Bool := S.all peSchema
+
+/-- the objects AnonymousEnumToExplicitType creates below a type, with the name suggestion `sug` -/
+def eNew (pkg sug : String) : Ty → List Obj
+  | .array e _ => eNew pkg sug e
+  | .map _ v _ => eNew pkg sug v
+  | .enum vs _ => [newObject pkg (ucc sug) (.enum (AnonymousEnumToExplicitType.renameMembers vs) {})]
+  | _ => []
+
+def eNewObj (o : Obj) : List Obj :=
+  match o.ty with
+  | .enum .. => []
+  | .struct fs _ _ _ => fs.flatMap fun f => eNew o.selfPkg (ucc o.name ++ ucc f.name) f.ty
+  | t => eNew o.selfPkg (ucc o.name ++ "Enum") t
+
+def eNewAll (m : Objects) : List Obj := m.flatMap fun ko => eNewObj ko.2
+
+def namesFresh : List String → List String → Bool
+  | [], _ => true
+  | n :: rest, taken => !taken.contains n && !rest.contains n && namesFresh rest taken
+
+/-- per schema: the generated enum object names are pairwise different and none is an existing key -/
+def enumFresh (S : Schemas) : Bool :=
+  S.all fun s => namesFresh ((eNewAll s.objects).map (·.name)) (s.objects.map (·.1))
 
 end Cog.Sem.Src
